@@ -1,16 +1,18 @@
-(* Corr/C03.v — a C03 correspondence case: a writer history (commits, compactions) and readers
-   (snapshot + k reads each) driven through the schedule points of the real engine in an explicit
-   schedule.  Compared: every view every reader observed (nodes in id order, label presence, the
-   property of every node, all relationships - sorted on both sides) with the model's observations
-   for the same schedule, torn and in-place effects included; and, for every read that the Coq classifier
-   below puts outside K-C03-torn and K-C03-inplace, the observed view with the committed state itself. *)
+(* Corr/C03.v — a C03 correspondence case: a writer history (commits, compactions) and readers (snapshot + k reads
+   each) driven through the schedule points of the real engine in an explicit schedule of the model's steps (one
+   schedule entry = one model step; a publication section or an acquisition is driven through all its points in
+   one go, it is atomic under the publication lock).  Compared: every view every reader observed (nodes in id
+   order, label presence, the property of every node, all relationships - sorted on both sides) with the model's
+   observation for the same schedule, in-place effects included.  The model itself marks every observation as
+   safe / unsafe (ghost) and Props/C03.v proves the safe ones equal to the committed state. *)
 From NDB Require Export Conc.Sched Conc.Snapshot Corr.Common.
 
 Record case := {
   hist : list wop;
   readers : list nat;
   sched : list nat;
-  impl_obs : list (nat * view)
+  impl_obs : list (nat * view);
+  impl_safe : list bool      (* the driver's own classification of every read (mirror of the model's o_safe) *)
 }.
 
 Definition edge_leb (a b : edge) : bool :=
@@ -23,112 +25,17 @@ Definition norm (v : view) : view :=
 
 Definition obs_eqb (a b : nat * view) : bool := Nat.eqb (fst a) (fst b) && view_eqb (norm (snd a)) (norm (snd b)).
 
-(* ---- classifier of the conditional theorems' hypotheses, decided inside Coq per schedule ----
-   The walk mirrors the program counters of `srun`: thread 0 executes the steps of the history's
-   operations in order, reader r its 7 acquisition steps and then its reads.
-   A read of reader r is SAFE when (a) no writer step was in flight at r's first acquisition step and
-   no writer step ran before r finished copying the fields (quiescent acquisition: outside K-C03-torn),
-   and (b) the property root was unset at acquisition or no compaction sink step ran between the end
-   of the acquisition and the read (outside K-C03-inplace).  For a safe read the observed view must be
-   exactly the committed state after the operations completed when the acquisition started. *)
-Record rinfo := {
-  ri_steps : nat;            (* steps executed by the reader (7 acquisition steps, then reads) *)
-  ri_reads : nat;            (* reads it performs in total *)
-  ri_j : nat;                (* writer operations completed when the acquisition started *)
-  ri_w0 : nat;               (* writer steps executed when the acquisition started *)
-  ri_quiescent : bool;
-  ri_root : bool;            (* property root set when it was copied *)
-  ri_sinks : nat             (* sink steps executed when the acquisition ended *)
-}.
-
-Record cstate := {
-  c_ops : list bool;         (* remaining writer operations: true = compaction *)
-  c_pos : nat;               (* steps of the current operation already executed *)
-  c_done : nat;              (* operations completed *)
-  c_wsteps : nat;
-  c_sinks : nat;
-  c_root : bool;
-  c_readers : list rinfo;
-  c_flags : list (nat * option nat)   (* per executed read, in order: reader, Some j if the read is safe *)
-}.
-
-Definition oplen (compact : bool) : nat := if compact then 7 else 4.
-
-Fixpoint upd_nth {A} (n : nat) (f : A -> A) (l : list A) : list A :=
-  match l, n with
-  | [], _ => []
-  | x :: r, 0 => f x :: r
-  | x :: r, S n' => x :: upd_nth n' f r
-  end.
-
-Definition cstep (c : cstate) (t : nat) : cstate :=
-  match t with
-  | 0 =>
-      match c_ops c with
-      | [] => c
-      | k :: rest =>
-          let pos' := S (c_pos c) in
-          let sinks' := if k && Nat.eqb pos' 2 then S (c_sinks c) else c_sinks c in
-          let root' := c_root c || (k && Nat.eqb pos' 4) in
-          if Nat.eqb pos' (oplen k)
-          then {| c_ops := rest; c_pos := 0; c_done := S (c_done c); c_wsteps := S (c_wsteps c); c_sinks := sinks'; c_root := root';
-                  c_readers := c_readers c; c_flags := c_flags c |}
-          else {| c_ops := c_ops c; c_pos := pos'; c_done := c_done c; c_wsteps := S (c_wsteps c); c_sinks := sinks'; c_root := root';
-                  c_readers := c_readers c; c_flags := c_flags c |}
-      end
-  | S r' =>
-      match nth_error (c_readers c) r' with
-      | None => c
-      | Some ri =>
-          let k := ri_steps ri in
-          if Nat.ltb k 7 then
-            let ri1 := if Nat.eqb k 0
-                       then {| ri_steps := 1; ri_reads := ri_reads ri; ri_j := c_done c; ri_w0 := c_wsteps c;
-                               ri_quiescent := Nat.eqb (c_pos c) 0; ri_root := ri_root ri; ri_sinks := ri_sinks ri |}
-                       else {| ri_steps := S k; ri_reads := ri_reads ri; ri_j := ri_j ri; ri_w0 := ri_w0 ri;
-                               ri_quiescent := ri_quiescent ri; ri_root := ri_root ri; ri_sinks := ri_sinks ri |} in
-            (* the window closes with the sixth step (RRoot) *)
-            let ri2 := if Nat.eqb k 5
-                       then {| ri_steps := ri_steps ri1; ri_reads := ri_reads ri1; ri_j := ri_j ri1; ri_w0 := ri_w0 ri1;
-                               ri_quiescent := ri_quiescent ri1 && Nat.eqb (c_wsteps c) (ri_w0 ri1); ri_root := c_root c; ri_sinks := c_sinks c |}
-                       else ri1 in
-            {| c_ops := c_ops c; c_pos := c_pos c; c_done := c_done c; c_wsteps := c_wsteps c; c_sinks := c_sinks c; c_root := c_root c;
-               c_readers := upd_nth r' (fun _ => ri2) (c_readers c); c_flags := c_flags c |}
-          else if Nat.ltb k (7 + ri_reads ri) then
-            let safe := ri_quiescent ri && (negb (ri_root ri) || Nat.eqb (c_sinks c) (ri_sinks ri)) in
-            {| c_ops := c_ops c; c_pos := c_pos c; c_done := c_done c; c_wsteps := c_wsteps c; c_sinks := c_sinks c; c_root := c_root c;
-               c_readers := upd_nth r' (fun x => {| ri_steps := S k; ri_reads := ri_reads x; ri_j := ri_j x; ri_w0 := ri_w0 x;
-                                                   ri_quiescent := ri_quiescent x; ri_root := ri_root x; ri_sinks := ri_sinks x |}) (c_readers c);
-               c_flags := c_flags c ++ [(t, if safe then Some (ri_j ri) else None)] |}
-          else c
-      end
-  end.
-
-Definition classify (h : list wop) (readers : list nat) (sched : list nat) : list (nat * option nat) :=
-  c_flags (fold_left cstep sched
-    {| c_ops := map (fun o => match o with WCompact => true | WCommit _ => false end) h; c_pos := 0; c_done := 0; c_wsteps := 0;
-       c_sinks := 0; c_root := false;
-       c_readers := map (fun k => {| ri_steps := 0; ri_reads := k; ri_j := 0; ri_w0 := 0; ri_quiescent := false; ri_root := false; ri_sinks := 0 |}) readers;
-       c_flags := [] |}).
-
-(* every read classified safe shows exactly the committed state after the j operations *)
-Fixpoint safe_reads_ok (h : list wop) (flags : list (nat * option nat)) (obs : list (nat * view)) : bool :=
-  match flags, obs with
+Fixpoint safe_obs_ok (m : list obs) (i : list (nat * view)) : bool :=
+  match m, i with
   | [], [] => true
-  | (t, f) :: fr, (t', v) :: or_ =>
-      Nat.eqb t t' &&
-      match f with
-      | Some j => view_eqb (norm v) (norm (view_of_spec (spec_of (firstn j h))))
-      | None => true
-      end && safe_reads_ok h fr or_
+  | o :: m', x :: i' =>
+      implb (o_safe o) (view_eqb (norm (snd x)) (norm (view_of_spec (spec_of (o_hist o))))) && safe_obs_ok m' i'
   | _, _ => false
   end.
 
-Definition safe_count (flags : list (nat * option nat)) : nat :=
-  length (filter (fun p => match snd p with Some _ => true | None => false end) flags).
-
 Definition ok (c : case) : bool :=
-  list_eqb obs_eqb (s_obs (Sched.shared (srun (sched c) (sinit (hist c) (readers c))))) (impl_obs c) &&
-  (* the implementation's observations of reads that the classifier puts outside both known classes
-     are exactly the committed state (hypotheses of the conditional theorems decided here, in Coq) *)
-  safe_reads_ok (hist c) (classify (hist c) (readers c) (sched c)) (impl_obs c).
+  let mobs := s_obs (Sched.shared (srun (sched c) (sinit (hist c) (readers c)))) in
+  list_eqb obs_eqb (map (fun o => (o_t o, o_view o)) mobs) (impl_obs c) &&
+  list_eqb Bool.eqb (map o_safe mobs) (impl_safe c) &&
+  (* the safe observations of the IMPLEMENTATION are the committed state (what the theorem says of the model) *)
+  safe_obs_ok mobs (impl_obs c).
